@@ -148,7 +148,7 @@ def scenarios(tier):
                 origs = [e['origin'] for e in exps]
                 out.append(Scenario(
                     '%s/%s%s/%s' % (role, ''.join(seq), '' if conn == 'none' else '+' + conn, cls), fa, flags_opts=fo, mode='local',
-                    clients=[dict(script=script)], origins=origins, dns=DNS, kinds='AR', horizon=600,
+                    clients=[dict(script=script)], origins=origins, dns=DNS, kinds='AR' if tier == 'quick' else 'ARE', horizon=600,
                     features={'role': role, 'sequence': ''.join(seq), 'n_requests': len(seq),
                               'packing': 'cut' if cls.startswith('cut') else cls,
                               'origins_differ': len(set(origs)) > 1,
